@@ -216,3 +216,76 @@ def make(tname):
 CONTRACTS = [TablePinned] + [make(t) for t in PINNED if t not in ('PortMirror', 'P4', 'OVS')]
 for _c in CONTRACTS:
     globals()[_c.__name__] = _c
+
+
+# ------------------------------------------------------------------------------------------- port mirror; declared site kept
+from fim.slivers.network_service import MirrorDirection
+
+
+class ValidatePortMirror(Contract):
+    """a port-mirror service with its required properties (mirrored port name, direction -- every direction) and its one
+    receiving dedicated port validates, and reads back the direction it was given"""
+    target = 'fim.user.topology:Topology.validate'
+    extra_targets = ('fim.user.topology:ExperimentTopology.add_port_mirror_service',)
+    props = ('C10',)
+    bounded = topo.BOUND + '; one port-mirror service per direction'
+    summaries = topo.SUMMARIES
+    max_paths = 2000
+    cost = 20
+
+    def inputs(self, g):
+        return [g.pick(list(MirrorDirection), 'direction'), g.atom('site')], {}
+
+    def body(self, h, direction, site):
+        topo.fresh_world(h)
+        t = h.call(ExperimentTopology)
+        n = h.call(h.getattr(t, 'add_node'), name='n0', site=site)
+        c = h.call(h.getattr(n, 'add_component'), name='nic', model_type=CMT('SmartNIC_ConnectX_6'))
+        pm = h.call(h.getattr(t, 'add_port_mirror_service'), name='pm', from_interface_name='HundredGigE0/0/0/5',
+                    to_interface=topo.iface(h, c, 'nic-p1'), direction=direction)
+        st, _ = h.attempt(h.getattr(t, 'validate'))
+        return (st, h.getattr(pm, 'mirror_direction'))
+
+    ensures = {'validate.port_mirror_with_required_properties_is_valid': lambda pre, post: returned(post) and post.result[0] == 'ok'
+               and post.result[1] is pre.args[0]}
+
+
+class DeclaredSiteSurvivesReattachment(Contract):
+    """history: a single-site service DECLARED at a site loses its only interface (disconnect, or removal of the node) and is
+    attached to a node elsewhere: validation still compares with the declared site"""
+    target = 'fim.user.topology:Topology.validate'
+    extra_targets = ('fim.user.network_service:NetworkService.disconnect_interface', 'fim.user.network_service:NetworkService.connect_interface')
+    props = ('C10',)
+    bounded = topo.BOUND + '; one bridge declared at a site, detached and re-attached once'
+    summaries = topo.SUMMARIES
+    max_paths = 2000
+    cost = 20
+
+    def inputs(self, g):
+        return [g.atom('site1'), g.atom('site2'), g.pick(['disconnect_interface', 'remove_node'], 'how the interface leaves')], {}
+
+    def body(self, h, site1, site2, how):
+        topo.fresh_world(h)
+        t = h.call(ExperimentTopology)
+        n1 = h.call(h.getattr(t, 'add_node'), name='n1', site=site1)
+        c1 = h.call(h.getattr(n1, 'add_component'), name='nic', model_type=CMT('SharedNIC_ConnectX_6'))
+        n2 = h.call(h.getattr(t, 'add_node'), name='n2', site=site2)
+        c2 = h.call(h.getattr(n2, 'add_component'), name='nic', model_type=CMT('SharedNIC_ConnectX_6'))
+        i1, i2 = topo.iface(h, c1, 'nic-p1'), topo.iface(h, c2, 'nic-p1')
+        ns = h.call(h.getattr(t, 'add_network_service'), name='svc', nstype=ServiceType.L2Bridge, site=site1,
+                    interfaces=PList([i1]) if h.mode == 'sym' else [i1])
+        if how == 'disconnect_interface':
+            h.call(h.getattr(ns, 'disconnect_interface'), i1)
+        else:
+            h.call(h.getattr(t, 'remove_node'), 'n1')
+        h.call(h.getattr(ns, 'connect_interface'), i2)
+        st, _ = h.attempt(h.getattr(t, 'validate'))
+        return (st, h.getattr(ns, 'site'))
+
+    ensures = {'validate.compares_with_the_declared_site_after_reattachment': lambda pre, post: returned(post) and And(
+        Iff(post.result[0] == 'ok', eq(pre.args[0], pre.args[1])), eq(post.result[1], pre.args[0]))}
+
+
+CONTRACTS += [ValidatePortMirror, DeclaredSiteSurvivesReattachment]
+for _c in (ValidatePortMirror, DeclaredSiteSurvivesReattachment):
+    globals()[_c.__name__] = _c
